@@ -40,6 +40,7 @@ type VirtualMachine struct {
 	importer     importer.Importer
 	os           os.OS
 	modules      map[string]*object.Module
+	importing    []string // modules whose code is being evaluated, outermost first
 	inputGlobals map[string]any
 	globals      map[string]object.Object
 	loadedCode   map[*compiler.Code]*code
@@ -1030,6 +1031,13 @@ func (vm *VirtualMachine) importModule(ctx context.Context, name string) (*objec
 	if vm.importer == nil {
 		return nil, fmt.Errorf("imports are disabled")
 	}
+	// A module that is still being evaluated is not in vm.modules yet.
+	// Evaluating it again would never end: it is a cyclic import.
+	for _, importing := range vm.importing {
+		if importing == name {
+			return nil, fmt.Errorf("import error: cyclic import of module %q", name)
+		}
+	}
 	module, err := vm.importer.Import(ctx, name)
 	if err != nil {
 		return nil, err
@@ -1040,11 +1048,13 @@ func (vm *VirtualMachine) importModule(ctx context.Context, name string) (*objec
 	baseSP := vm.sp
 	code := vm.loadCode(module.Code())
 	vm.activateCode(vm.fp+1, 0, code)
+	vm.importing = append(vm.importing, name)
 	// Restore the previous frame when done. A module is evaluated for its
 	// globals, not for a result: whatever its code left on the stack (the
 	// value of its last statement, or the operands of a failed instruction)
 	// is dropped, so that the importer finds the stack as it was.
 	defer func() {
+		vm.importing = vm.importing[:len(vm.importing)-1]
 		vm.resumeFrame(baseFP, baseIP, baseSP)
 		for vm.sp > baseSP {
 			vm.pop()
